@@ -962,3 +962,34 @@ Proof.
   rewrite (post_first_non_timeout CLOUD_RETRIES n _ s log _ Hn) by discriminate.
   reflexivity.
 Qed.
+
+(* ---------- the cloud object cached for a discovery session ---------- *)
+Section CloudCache.
+  Variable SV : Type.
+  Variable srv : SV -> request -> SV * outcome.
+  Variable dev : str.
+  Variable stamp_of : nat -> str.
+
+  Lemma login_ok_has_session force c w c1 w1 : login SV srv dev stamp_of force c w = (Ok tt, c1, w1) -> c_has_session c1 = true.
+  Proof.
+    unfold login. destruct (c_has_session c && negb force) eqn:E.
+    - intros H. injection H as <- <-. apply andb_prop in E. apply E.
+    - destruct (c_login_id c) as [l|].
+      + destruct (api_request SV srv w EP_LOGIN _) as [r w2]. destruct r as [[[]|]|e]; intros H; try discriminate H;
+          injection H as <- <-; reflexivity.
+      + destruct (get_login_id SV srv dev stamp_of c w) as [r w'] eqn:Eg. destruct r as [l|e]; [|discriminate].
+        destruct (api_request SV srv w' EP_LOGIN _) as [r2 w2]. destruct r2 as [[[]|]|e]; intros H; try discriminate H;
+          injection H as <- <-; reflexivity.
+  Qed.
+
+  (* Discover._get_cloud: a cloud object is kept for the rest of the discovery session only once its login has succeeded *)
+  Theorem get_cloud_cached_only_after_login region account password w r dc' w' :
+    get_cloud SV srv dev stamp_of None region account password w = (r, dc', w') ->
+    match r with Ok c => dc' = Some c /\ c_has_session c = true | Err _ => dc' = None end.
+  Proof.
+    unfold get_cloud. destruct (cloud_new region account password) as [c0|e]; [|intros H; injection H as <- <- <-; reflexivity].
+    destruct (login SV srv dev stamp_of false c0 w) as [[rl c1] w1] eqn:El. destruct rl as [[]|e].
+    - intros H. injection H as <- <- <-. split; [reflexivity|eapply login_ok_has_session; exact El].
+    - intros H. injection H as <- <- <-. reflexivity.
+  Qed.
+End CloudCache.
